@@ -52,13 +52,14 @@ def wfFieldNames (fs : List Field) : Bool :=
 /-- **The general statement** (kept visible; proved below for the families named
 `…_partial`): for every schema of the `Ty` grammar without header remaps, every
 representable value and every admissible layout, parse ∘ unparse is the identity.
-(Schemas with remaps additionally need the remap tables to be mutually inverse on the value,
-see `harness/props/c07.py remap_consistent`; untyped lists holding lists must be packed —
-finding F-C04-d.) -/
+(`AnySpreadOk`: untyped lists holding lists must be packed — finding F-C04-d.  Schemas with
+remaps additionally need the remap tables to be mutually inverse on the value, see
+`harness/props/c07.py remap_consistent`.) -/
 def C07_full : Prop :=
   ∀ (fs : List Field) (lay : Layout) (v : Val),
     wfFieldNames fs = true →
     Representable (plainTop fs) v = true → Admissible { top := plainTop fs } lay = true →
+    AnySpreadOk { top := plainTop fs } lay v = true →
     RoundTrip { top := plainTop fs } lay v
 
 /-- family 1: every field has a basic type (`str`, `int`, `float`, `bool`) -/
@@ -98,19 +99,25 @@ theorem parse_unparse_flat_partial (fs : List Field) (lay : Layout) (v : Val)
 in every admissible layout**: each list of basic values independently spread over `f.1, f.2, …` or
 packed into one cell `x|y|z`; each sub-record spread over `f.a, f.b, …` or packed as
 `a;va|b;vb`; each ELEMENT of a list of sub-records independently packed into its cell `f.i`
-or spread over `f.i.a, f.i.b, …`; as selected by ANY admissible target-header set (with `*`
-or concrete indices); any number of fields, unbounded strings, integers and list lengths;
+or spread over `f.i.a, f.i.b, …`; each untyped list packed (strings and lists of strings) or —
+plain strings — spread; as selected by ANY admissible target-header set (with `*` or
+concrete indices); any number of fields, unbounded strings, integers and list lengths;
 default-valued fields elided and restored. -/
 theorem parse_unparse_partial (fs : List Field) (lay : Layout) (v : Val)
     (hwf : wfFieldNames fs = true) (hfam : family fs = true)
     (hr : Representable (plainTop fs) v = true)
-    (ha : Admissible { top := plainTop fs } lay = true) :
+    (ha : Admissible { top := plainTop fs } lay = true)
+    (hany : AnySpreadOk { top := plainTop fs } lay v = true) :
     RoundTrip { top := plainTop fs } lay v := by
   cases v <;> simp [Representable] at hr
   case model kvs =>
     obtain ⟨hnames, hrf⟩ := hr
     simp only [wfFieldNames, Bool.and_eq_true, List.all_eq_true, decide_eq_true_eq] at hwf
     obtain ⟨hsimple, hnd⟩ := hwf
+    have hanyF : anyDeepFields lay [] [] kvs fs = true := by
+      have := hany
+      unfold AnySpreadOk anyDeep at this
+      simpa [matchesHeaders] using this
     simp only [Admissible, Bool.and_eq_true, List.isEmpty_iff] at ha
     have he : lay.excluded = [] := ha.1
     have hadm : admFields lay.targets [] [] fs = true := by
@@ -131,8 +138,13 @@ theorem parse_unparse_partial (fs : List Field) (lay : Layout) (v : Val)
         exact hfam p.1 hmem
       have hadm' := admFields_mem lay.targets [] [] fs hadm p.1 hmem (remap_nil _)
       simp only [List.nil_append] at hadm'
-      exact fieldRT_fam (d := p.1.2.2) (hsimple p.1 hmem) (fieldLookup_mem fs hnd p.1 hmem) he hb hfo h
-        hadm' 
+      refine fieldRT_fam (d := p.1.2.2) (hsimple p.1 hmem) (fieldLookup_mem fs hnd p.1 hmem) he hb hfo h
+        hadm' ?_
+      intro xs hty hv hm
+      have := anyDeepFields_mem lay [] [] kvs fs hanyF p.1 hmem (remap_nil _) p.2 hx' hdef
+      rw [hty, hv] at this
+      unfold anyDeep at this
+      simpa [hm] using this
 
 /-- flat records are the special case -/
 theorem flat_in_family (fs : List Field) (h : flatFamily fs = true) : family fs = true := by
@@ -208,7 +220,8 @@ def exLayouts : List Layout :=
 (all spread, only the list packed, only the sub-record packed, everything packed, `*`) -/
 example : wfFieldNames exFam = true ∧ family exFam = true ∧
     Representable (plainTop exFam) exFamVal = true ∧
-    exLayouts.all (fun lay => Admissible { top := plainTop exFam } lay) = true := by
+    exLayouts.all (fun lay => Admissible { top := plainTop exFam } lay &&
+      AnySpreadOk { top := plainTop exFam } lay exFamVal) = true := by
   decide +kernel
 
 example : exLayouts.all (fun lay => roundTrips { top := plainTop exFam } lay exFamVal) = true := by
@@ -297,5 +310,24 @@ theorem needs_admissible_list_of_records :
     Admissible { top := plainTop exItems } { targets := ["items".toList] } = false ∧
     roundTrips { top := plainTop exItems } { targets := ["items".toList] } exItemsVal = false := by
   decide +kernel
+
+/-! #### untyped lists -/
+
+def exAny : List Field :=
+  [("u".toList, .anyList, some (.any [])), ("hs".toList, .anyList, some (.any []))]
+
+def exAnyVal : Val :=
+  .model [("u".toList, .any [.atom "a;b".toList, .atom "c".toList]),
+    ("hs".toList, .any [.list [.atom "k|1".toList, .atom "v".toList], .atom "w".toList])]
+
+/-- non-vacuity: plain strings spread, the list holding a list packed — and `AnySpreadOk`
+excludes exactly the layout that spreads `hs` -/
+example : wfFieldNames exAny = true ∧ family exAny = true ∧
+    Representable (plainTop exAny) exAnyVal = true ∧
+    Admissible { top := plainTop exAny } { targets := ["hs".toList] } = true ∧
+    AnySpreadOk { top := plainTop exAny } { targets := ["hs".toList] } exAnyVal = true ∧
+    roundTrips { top := plainTop exAny } { targets := ["hs".toList] } exAnyVal = true ∧
+    AnySpreadOk { top := plainTop exAny } {} exAnyVal = false ∧
+    roundTrips { top := plainTop exAny } {} exAnyVal = false := by decide +kernel
 
 end Rpft.Props.C07
